@@ -619,6 +619,10 @@ def run_scenario(sc, budget=4000, wall=10, probes=None):
             q = dues.get((id(target), id(signal_)))
             due, seq = q.pop(0) if q else (None, None)
             env.probe('act', self.time, self.turn, due, env.coro_names.get(id(target)), seq)
+            if getattr(target, 'cr_frame', 0) is None and not getattr(target, 'cr_running', False):
+                # the loop executes a wake-up for a coroutine that has ended already (returned, raised or was closed)
+                env.probe('stale', self.time, env.coro_names.get(id(target)),
+                          None if signal_ is None else type(signal_).__name__, due)
             step_checks(self)
         try:
             return orig_run(self, target, signal_)
